@@ -377,6 +377,28 @@ var trConfs = []trConf{
 			"return sdkerrors.Wrap(err, \"Could not get consensus key address for validator\")": ".rejected err",
 			"return fmt.Errorf(\"checkBadSignatureEvidenceInternal jail: %w\", err)": ".rejected err",
 			"return nil": "if didJail then .jailed else .alreadyJailed"}},
+	{key: "x/paloma.VerifyAuthorisedSignatureDecorator.AnteHandle", lean: "anteHandle", ret: "AnteOutcome",
+		prelude: "/-- a message as the ownership decorator reads it: does it carry Paloma metadata, who is named as creator, who are the declared signers -/\nstructure AnteMsg where\n  hasMeta : Bool\n  creator : Nat\n  signers : List Nat\nderiving DecidableEq, Repr\n\n/-- the decorator's verdict: hand the transaction on, or refuse it (1 nesting / unpacking, 2 allowance look-up failed, 3 no signature by the\n    creator or by an account the creator granted an allowance) -/\ninductive AnteOutcome where\n  | pass | rejected (code : Nat)\nderiving DecidableEq, Repr",
+		params: []trParam{{"simulate", "Bool"}, {"scopeErr", "Bool"}, {"msgs", "List AnteMsg"}, {"allowances", "Nat → Option (List (Option Nat))"}},
+		init:      []string{"let mut err : Nat := 0"},
+		elemTypes: map[string]string{"msgs": "AnteMsg", "grants.GetAllowances()": "Option Nat"},
+		atoms: map[string]string{"err != nil": "err != 0", "v.String() == creator": "v == creator", "grants.GetAllowances()": "grantsList",
+			"v == nil": "v.isNone", "len(grantees)": "(grantees.length : Int)"},
+		stmts: map[string][]string{
+			"msgs, err := ownershipScope(tx.GetMsgs(), 0)":                       {"err := if scopeErr then 1 else 0"},
+			"m, ok := msg.(libmeta.MsgWithMetadata[vtypes.MsgMetadata])":        {"let ok := msg.hasMeta"},
+			"creator := m.GetMetadata().GetCreator()":                           {"let creator := msg.creator"},
+			"signers := libmeta.GetSigners(m)":                                  {"let signers := msg.signers"},
+			"grants, err := d.fk.AllowancesByGranter(ctx, &feegrant.QueryAllowancesByGranterRequest{ Granter: creator, })": {
+				"err := if (allowances creator).isNone then 2 else 0", "let grantsList := (allowances creator).getD []"},
+			"grantsLkUp := map[string]feegrant.Grant{}": {"let mut grantsLkUp : List Nat := []"},
+			"grantsLkUp[v.GetGrantee()] = *v":           {"grantsLkUp := grantsLkUp ++ [v.getD 0]"},
+			"grantees := make([]string, 0, len(signers))": {"let mut grantees : List Nat := []"},
+			"if v, found := grantsLkUp[signer.String()]; found { logger(ctx).Debug(\"found granted signature\", \"signature\", v.Grantee) grantees = append(grantees, v.Grantee) }": {
+				"if grantsLkUp.contains signer then", "  grantees := grantees ++ [signer]"}},
+		returns: map[string]string{"return next(ctx, tx, simulate)": ".pass", "return ctx, err": ".rejected err",
+			"return ctx, fmt.Errorf(\"failed to verify message signature authorisation: %w\", err)": ".rejected err",
+			"return ctx, fmt.Errorf(\"no signature from granted address found for message %s\", proto.MessageName(msg))": ".rejected 3"}},
 	{key: "x/metrix/keeper.calculateUptime", lean: "calculateUptimeGuard", ret: "Bool",
 		params: []trParam{{"window", "Int"}, {"missed", "Int"}},
 		// only the guard is arithmetic; the division goes through big.Float (modelled in C14's score arithmetic)
@@ -385,6 +407,7 @@ var trConfs = []trConf{
 }
 
 type trCtx struct {
+	foldVar string // inside a loop emitted as a fold: the accumulator (a `continue` returns it)
 	w    *world
 	fi   *funcInfo
 	conf trConf
@@ -428,27 +451,38 @@ func leavesEarly(stmts []ast.Stmt) bool {
 
 // variables assigned (not defined) in the statements, in order of first assignment
 func assignedVars(stmts []ast.Stmt, conf trConf) []string {
-	var out []string
+	var all []string
 	seen := map[string]bool{}
+	declared := map[string]bool{} // declared inside the statements themselves: not state of the enclosing loop
 	add := func(n string) {
 		if !seen[n] {
 			seen[n] = true
-			out = append(out, n)
+			all = append(all, n)
 		}
 	}
 	for _, st := range stmts {
 		ast.Inspect(st, func(n ast.Node) bool {
 			if repl, ok := conf.stmts[src(n)]; ok {
 				for _, l := range repl {
-					if i := strings.Index(l, " := "); i > 0 && !strings.HasPrefix(l, "let ") {
-						add(strings.TrimSpace(l[:i]))
+					t := strings.TrimSpace(l)
+					if strings.HasPrefix(t, "let ") {
+						f := strings.Fields(t)
+						if len(f) > 2 && f[1] == "mut" {
+							declared[f[2]] = true
+						} else if len(f) > 1 {
+							declared[f[1]] = true
+						}
+						continue
+					}
+					if i := strings.Index(t, " := "); i > 0 {
+						add(strings.TrimSpace(t[:i]))
 					}
 				}
 				return false
 			}
-			if as, ok := n.(*ast.AssignStmt); ok && as.Tok != token.DEFINE {
+			if as, ok := n.(*ast.AssignStmt); ok {
 				for _, l := range as.Lhs {
-					if id, ok := l.(*ast.Ident); ok {
+					if id, ok := l.(*ast.Ident); ok && as.Tok != token.DEFINE {
 						add(id.Name)
 					}
 				}
@@ -456,7 +490,34 @@ func assignedVars(stmts []ast.Stmt, conf trConf) []string {
 			return true
 		})
 	}
+	var out []string
+	for _, n := range all {
+		if !declared[n] {
+			out = append(out, n)
+		}
+	}
 	return out
+}
+
+// only `continue` leaves the body early (no break, no return)?
+func onlyContinues(stmts []ast.Stmt) bool {
+	ok := true
+	for _, st := range stmts {
+		ast.Inspect(st, func(n ast.Node) bool {
+			switch x := n.(type) {
+			case *ast.ReturnStmt:
+				ok = false
+			case *ast.BranchStmt:
+				if x.Tok != token.CONTINUE {
+					ok = false
+				}
+			case *ast.RangeStmt, *ast.ForStmt, *ast.FuncLit:
+				return false
+			}
+			return ok
+		})
+	}
+	return ok
 }
 
 func (c *trCtx) fail(format string, a ...interface{}) string {
@@ -764,7 +825,9 @@ func (c *trCtx) block(stmts []ast.Stmt, ind string, out *[]string) {
 					emit("break")
 				}
 			case token.CONTINUE:
-				if c.loop != nil {
+				if c.foldVar != "" {
+					emit("return " + c.foldVar)
+				} else if c.loop != nil {
 					emit(c.loop.again())
 				} else {
 					emit("continue")
@@ -852,6 +915,22 @@ func (c *trCtx) block(stmts []ast.Stmt, ind string, out *[]string) {
 					}
 				}
 				continue
+			}
+			// `x := func() bool { for _, v := range L { if cond { return true } }; return false }()`: some element satisfies cond
+			if ce, ok := s.Rhs[0].(*ast.CallExpr); ok && s.Tok == token.DEFINE && len(ce.Args) == 0 {
+				if fl, ok := ce.Fun.(*ast.FuncLit); ok && len(fl.Body.List) == 2 {
+					rs, ok1 := fl.Body.List[0].(*ast.RangeStmt)
+					ret, ok2 := fl.Body.List[1].(*ast.ReturnStmt)
+					if ok1 && ok2 && len(ret.Results) == 1 && src(ret.Results[0]) == "false" && len(rs.Body.List) == 1 && rs.Value != nil {
+						if is, ok := rs.Body.List[0].(*ast.IfStmt); ok && is.Init == nil && is.Else == nil && len(is.Body.List) == 1 {
+							if r2, ok := is.Body.List[0].(*ast.ReturnStmt); ok && len(r2.Results) == 1 && src(r2.Results[0]) == "true" {
+								emit(fmt.Sprintf("let mut %s : Bool := (%s).any (fun %s => %s)", id.Name, c.expr(rs.X), src(rs.Value), c.expr(is.Cond)))
+								c.noteType(id.Name, "Bool")
+								continue
+							}
+						}
+					}
+				}
 			}
 			// `x := sdk.NewCoin(denom, amount)`: the coin's amount
 			if ce, ok := s.Rhs[0].(*ast.CallExpr); ok && s.Tok == token.DEFINE && src(ce.Fun) == "sdk.NewCoin" && len(ce.Args) == 2 {
@@ -978,6 +1057,30 @@ func (c *trCtx) block(stmts []ast.Stmt, ind string, out *[]string) {
 			if s.Value != nil {
 				v = src(s.Value)
 			}
+			// a loop that never returns or breaks (it may `continue`) and assigns at most one variable declared outside it:
+			// a left fold with that variable as the accumulator; none assigned (logging only): nothing
+			// (used inside another loop's helper, and for bodies with a `continue`; a plain top-level loop stays a `for`)
+			if onlyContinues(s.Body.List) && (c.loop != nil || leavesEarly(s.Body.List)) {
+				muts := assignedVars(s.Body.List, c.conf)
+				if len(muts) == 0 {
+					continue
+				}
+				if len(muts) == 1 {
+					m := muts[0]
+					bind := v
+					if et, ok := c.conf.elemTypes[src(s.X)]; ok {
+						bind = "(" + v + " : " + et + ")"
+					}
+					emit(fmt.Sprintf("%s := (%s).foldl (fun %s__ %s => Id.run do", m, c.expr(s.X), m, bind))
+					emit(fmt.Sprintf("    let mut %s := %s__", m, m))
+					savedLoop, savedFold := c.loop, c.foldVar
+					c.loop, c.foldVar = nil, m
+					c.block(s.Body.List, ind+"    ", out)
+					c.loop, c.foldVar = savedLoop, savedFold
+					emit(fmt.Sprintf("    return %s) %s", m, m))
+					continue
+				}
+			}
 			// search idiom `for _, v := range L { if cond { return E } }`: the first element satisfying cond decides
 			if len(s.Body.List) == 1 {
 				if is, ok := s.Body.List[0].(*ast.IfStmt); ok && is.Init == nil && is.Else == nil && len(is.Body.List) == 1 {
@@ -1028,7 +1131,9 @@ func (c *trCtx) block(stmts []ast.Stmt, ind string, out *[]string) {
 				}
 				lp := &trLoop{name: fmt.Sprintf("%s_loop%d", c.conf.lean, c.nLoops), args: strings.Join(pnames, " "), muts: muts, rest: "rest__"}
 				elemT := "Nat"
-				if et, ok := c.conf.elemTypes[v]; ok {
+				if et, ok := c.conf.elemTypes[src(s.X)]; ok {
+					elemT = et
+				} else if et, ok := c.conf.elemTypes[v]; ok {
 					elemT = et
 				} else if tv, ok := c.fi.pkg.TypesInfo.Types[s.X]; ok {
 					if sl, ok := tv.Type.Underlying().(*types.Slice); ok {
@@ -1126,7 +1231,7 @@ func (c *trCtx) block(stmts []ast.Stmt, ind string, out *[]string) {
 
 // statements that only log or emit an event
 func isLogOrEvent(text string) bool {
-	for _, p := range []string{"k.Logger(ctx).", "logger.", "liblog.FromSDKLogger(", "keeperutil.EmitEvent(", "sdkCtx.EventManager().EmitEvent"} {
+	for _, p := range []string{"k.Logger(ctx).", "logger.", "logger(ctx).", "liblog.FromSDKLogger(", "keeperutil.EmitEvent(", "sdkCtx.EventManager().EmitEvent"} {
 		if strings.HasPrefix(text, p) {
 			return true
 		}
